@@ -87,7 +87,18 @@ Definition resolve_op (am : aobj) (o : op) : op :=
   | SetAttr n v h => SetAttr (resolve am n) v h
   | SetItem k v => SetItem (resolve_key am k) v
   | ReplaceValues kvs => ReplaceValues (map (fun kv => (resolve am (fst kv), snd kv)) kvs)
-  | AddVariable _ _ _ | AddAttribute _ _ => o
+  | AddVariable _ _ _ | AddAttribute _ _ | Query _ => o
+  end.
+
+(* the read-only hooks of the mixin: (state afterwards, what is returned).
+   _ipython_key_completions_ / __dir__ : the base class's answer + list(self.aliases.keys()), a NEW list (concatenation);
+   __contains__ is NOT wrapped (the name is looked up as it is); nbytes walks `index` through the alias-resolving __getitem__ *)
+Definition alias_read (am : aobj) (q : query) (s : state) : state * outcome qval :=
+  match q with
+  | QCompletions => (s, Ret (VNames (index s ++ akeys (amap am))))
+  | QDir => (s, Ret (VNames (index s ++ reg_names (registry s) ++ akeys (amap am))))
+  | QContains n => read (QContains n) s
+  | QNbytes => (s, match nbytes_of (resolve am) s with Ret n => Ret (VNat n) | Raise e => Raise e end)
   end.
 
 Section AliasOps.
@@ -98,7 +109,10 @@ Section AliasOps.
   Variable itemseq_exn : dtype -> exn.
 
   Definition gen_alias_step (am : aobj) (o : op) (s : state) : res :=
-    step pycast arrcast infer astype_dt itemseq_exn (resolve_op am o) s.
+    match o with
+    | Query q => (fst (alias_read am q s), Ret tt)
+    | _ => step pycast arrcast infer astype_dt itemseq_exn (resolve_op am o) s
+    end.
 
   Fixpoint gen_alias_run (am : aobj) (ops : list op) (s : state) : state :=
     match ops with [] => s | o :: r => gen_alias_run am r (fst (gen_alias_step am o s)) end.
